@@ -8,7 +8,8 @@ Generated:
                       there), cross-checked with the literal table in the source when its shape is recognised
   arrayPrefix         type_map(list[int]) minus type_map(int)
   typeVarBranch       whether type_map(type_from_format(x)) == x
-  newGuard            how DataClassPayload(.WID).__new__ reach convert_to_payload (AST): always | ifNoFormatList | unknown
+  newGuard            how DataClassPayload(.WID).__new__ reach convert_to_payload: always | ifNoFormatList | oncePerClass
+                      (AST; for an unrecognised spelling a probe on the live classes) | unknown
   shipped             every VariablePayload subclass defined in the ipv8 package outside ipv8.test:
                       format_list (strings / nested classes / [class]), names, hooks found with dir(), and the
                       `__init__` defined in the class body, if any (parameters must be exactly the field names,
@@ -163,9 +164,38 @@ def type_map_table():
     return table, prefix, tv
 
 
+def _probe_converts_unconverted() -> bool:
+    """behavioural fallback for a guard whose spelling is not recognised: on fresh 2-level dataclass chains of the LIVE
+    classes, in four instantiation orders (for the plain and the [msg_id] base), does every instantiated class end up
+    with the class data of its own flattened field list?"""
+    import dataclasses
+    if str(REPO) not in sys.path:
+        sys.path.insert(0, str(REPO))
+    from ipv8.messaging.payload_dataclass import DataClassPayload
+    n = 0
+    for base in (DataClassPayload, DataClassPayload[7]):
+        for order in ([0, 1], [1, 0], [1], [0, 1, 0]):
+            n += 1
+            par = dataclasses.make_dataclass(f"GuardProbeP{n}", [("a", int)], bases=(base,))
+            chi = dataclasses.make_dataclass(f"GuardProbeC{n}", [("b", bytes, dataclasses.field(default=b""))], bases=(par,))
+            par.__module__ = chi.__module__ = __name__
+            classes, want = [par, chi], [["a"], ["a", "b"]]
+            try:
+                for k in order:
+                    classes[k](1)
+            except Exception:  # noqa: BLE001
+                return False
+            for k in set(order):
+                if list(classes[k].names) != want[k] or len(classes[k].format_list) != len(want[k]):
+                    return False
+    return True
+
+
 def new_guard():
     """how DataClassPayload.__new__ and DataClassPayloadWID.__new__ reach convert_to_payload: 'always' (a plain statement
-    of the method), 'ifNoFormatList' (`if not cls.format_list:`), else 'unknown'; both classes must agree"""
+    of the method), 'ifNoFormatList' (`if not cls.format_list:`), 'oncePerClass' (guarded by a marker looked up in the
+    class's OWN __dict__ / vars(cls), or any other spelling for which the probe on the live classes shows that every
+    instantiated class is converted), else 'unknown'; both classes must agree"""
     path = REPO / "ipv8/messaging/payload_dataclass.py"
     tree = ast.parse(path.read_text())
     kinds = []
@@ -177,14 +207,21 @@ def new_guard():
             continue
         kind = "unknown"
         for st in fn.body:
+            calls = isinstance(st, ast.If) and not st.orelse and any(
+                isinstance(x, ast.Expr) and isinstance(x.value, ast.Call)
+                and ast.unparse(x.value.func) == "convert_to_payload" for x in st.body)
             if isinstance(st, ast.Expr) and isinstance(st.value, ast.Call) and ast.unparse(st.value.func) == "convert_to_payload":
                 kind = "always"
-            elif isinstance(st, ast.If) and ast.unparse(st.test) == "not cls.format_list" and not st.orelse and any(
-                    isinstance(x, ast.Expr) and isinstance(x.value, ast.Call)
-                    and ast.unparse(x.value.func) == "convert_to_payload" for x in st.body):
+            elif calls and ast.unparse(st.test) == "not cls.format_list":
                 kind = "ifNoFormatList"
+            elif calls and isinstance(st.test, ast.Compare) and isinstance(st.test.ops[0], ast.NotIn) \
+                    and ast.unparse(st.test.comparators[0]) in ("cls.__dict__", "vars(cls)"):
+                kind = "oncePerClass"
         kinds.append(kind)
-    return kinds[0] if len(set(kinds)) == 1 else "unknown"
+    kind = kinds[0] if len(set(kinds)) == 1 else "unknown"
+    if kind == "unknown" and _probe_converts_unconverted():
+        kind = "oncePerClass"
+    return kind
 
 
 def overlay_formats():
